@@ -46,6 +46,7 @@ class Pipe(object):
         self.data = bytearray()     # tap: every byte accepted for delivery (after faults)
         self.on_cut = None          # callback when the cut fires (to end the reverse pipe)
         self.short_read = None      # f(avail) -> n <= avail
+        self.capacity = None        # bytes that may sit unread before send() blocks (None: unbounded)
 
     # -- sender side
     def write(self, data):
@@ -280,7 +281,24 @@ class SimSocket(object):
         s = self.net.sched
         s.yield_('send')
         self._check()
-        return self.tx.write(data)
+        tx = self.tx
+        if tx.capacity is not None and not (tx.dead or tx.cut_fired):
+            # back-pressure: the peer's receive window and our send buffer are full until it reads.
+            # A blocking socket waits; one with a timeout raises socket.timeout (nothing was sent).
+            def room():
+                unread = sum(len(sg[1]) for sg in tx.segs)
+                return unread == 0 or unread + len(data) <= tx.capacity or tx.fin or tx.rst or self.closed
+            if not room():
+                self.net.fired('SEND_BLOCKED')
+                if self._timeout == 0.0:
+                    raise BlockingIOError(errno.EAGAIN, 'would block')
+                dl = INF if self._timeout is None else s.now + self._timeout
+                s.block(Waiter(cond=room, deadline=dl, why='send-buffer'))
+                if not room():
+                    self.net.fired('SEND_TIMEOUT')
+                    raise timeout('timed out')
+                self._check()
+        return tx.write(data)
 
     def sendall(self, data, flags=0):
         self.send(data)
